@@ -421,7 +421,7 @@ static bool fs_op(long c, vh::Tok& t)
     printf("%ld %d", c, File::rename(a, b, atoi(t.v[3]) != 0) ? 1 : 0);
   } else if(!strcmp(o, "copy")) {
     String a = arg(t.v[1]), b = arg(t.v[2]);
-    probe_now("s", a, true); probe_now("e", b, true); probe_after("d", b, true);
+    probe_now("s", a, true); probe_now("e", b, true); probe_now("l", b, false); probe_after("d", b, true);
     printf("%ld %d", c, File::copy(a, b, atoi(t.v[3]) != 0) ? 1 : 0);
     inj_n = inj_i = 0;
   } else if(!strcmp(o, "exists")) {
